@@ -35,6 +35,28 @@ def src(node):
     return ast.unparse(node)
 
 
+def canon(node):
+    """canonical text of a boolean mask expression: np.logical_and / np.logical_or are flattened and their operands
+    sorted (so swapping operands or re-associating is not a change); everything else is the unparsed source"""
+    if isinstance(node, ast.Call) and src(node.func) in ("np.logical_and", "np.logical_or") and len(node.args) == 2:
+        op = "and" if src(node.func).endswith("and") else "or"
+        parts = []
+
+        def flat(n):
+            if isinstance(n, ast.Call) and src(n.func) == src(node.func) and len(n.args) == 2:
+                flat(n.args[0])
+                flat(n.args[1])
+            else:
+                parts.append(canon(n))
+        flat(node)
+        return op + "(" + "; ".join(sorted(parts)) + ")"
+    if isinstance(node, ast.Subscript):
+        return canon(node.value) + "[" + src(node.slice) + "]"
+    if isinstance(node, ast.Call) and isinstance(node.func, ast.Attribute) and not node.args and not node.keywords:
+        return canon(node.func.value) + "." + node.func.attr + "()"
+    return src(node)
+
+
 def generate(repo):
     notes = []
     path = os.path.join(repo, "polliwog", "plane", "_trimesh_intersections.py")
@@ -67,7 +89,7 @@ def generate(repo):
                                 if il is not None:
                                     offs[ts] = il
             if ts in ("onedge", "inside", "onedge_quad", "onedge_tri"):
-                preds[ts] = src(node.value)
+                preds[ts] = canon(node.value)
             if ts == "dist":
                 clip = src(node.value)
     qpath = os.path.join(repo, "polliwog", "tri", "quad_faces.py")
@@ -108,7 +130,7 @@ def generate(repo):
         "/-- `quads_to_tris`: columns of the even rows and of the odd rows -/",
         "def quadsToTrisEven : List Nat := " + L(qcols.get("(0::2, :)", qcols.get("0::2, :"))),
         "def quadsToTrisOdd : List Nat := " + L(qcols.get("(1::2, :)", qcols.get("1::2, :"))),
-        "/-- source text of the case predicates and of the edge parameter (compared literally) -/",
+        "/-- canonical text of the case predicates (and/or flattened, operands sorted) and the edge-parameter expression -/",
         "def onedgeSrc : String := " + S(preds.get("onedge")),
         "def insideSrc : String := " + S(preds.get("inside")),
         "def onedgeQuadSrc : String := " + S(preds.get("onedge_quad")),
